@@ -68,8 +68,10 @@ def ints():
 
 def mstrings():
     printable = st.text(alphabet=st.characters(min_codepoint=32, max_codepoint=126), max_size=14)
-    return st.one_of(printable, st.sampled_from(["", "\n", "\"", "\\", "a\"b", "a\\nb", "line1\nline2", "#", "# no comment",
-                                                 "/* x */", "a ; b", "{ }", "(", "0x00", "%a"])).map(
+    spaced = st.lists(st.sampled_from(["a", "b", " ", "  ", "   ", "\n", "\"", "\\", ";", "x y"]), max_size=6).map("".join)
+    return st.one_of(printable, spaced, st.sampled_from(["", "\n", "\"", "\\", "a\"b", "a\\nb", "line1\nline2", "#", "# no comment",
+                                                 "/* x */", "a ; b", "{ }", "(", "0x00", "%a", " ", "  ", "two  blanks", " lead", "trail ",
+                                                 "\n\n", " \n "])).map(
         lambda s: {"string": s})
 
 
